@@ -125,6 +125,9 @@ func (vm *VM) convertPanic(msg any) error {
 		return err
 	case *fatalError:
 		return err
+	case *PanicError:
+		// A Scriggo function, called by a native function, has panicked.
+		return err
 	case outError:
 		return vm.newPanic(err)
 	}
